@@ -170,13 +170,18 @@ def spelled_chain_strategy(min_len=1, max_len=4, bare=False, bare_after_half=Fal
     return build()
 
 
+COMPONENTS_SET = set(HALVES) | set(QUARTERS)
+
+
 def glue_ok(spell, i):
     """May component i be written directly against component i + 1?"""
     fam, text = spell[i]
     if text[-1] in "24½¼":
         return True
-    # a bare quarter may be glued to another bare quarter ('N2NENW'), to nothing else
-    return fam == "bareq" and spell[i + 1][0] == "bareq"
+    # a bare quarter may be glued to another bare quarter ('N2NENW') and to a component in the clean glyph form ('N½NES½',
+    # 'N2NESW¼'), to nothing else
+    nxt = spell[i + 1][1]
+    return fam == "bareq" and (spell[i + 1][0] == "bareq" or (len(nxt) in (2, 3) and nxt[-1] in "½¼" and nxt[:-1] in COMPONENTS_SET))
 
 
 def fix_joiners(chain, spell, joiners, bare):
